@@ -326,6 +326,75 @@ theorem import_export_any (L : Laws C) (p p2 : Bytes) (f : File C) (s : Signer C
   · unfold importKey; rw [hsk]
   · exact export_save L p2 s.sk salt2 nonce2 hs hn
 
+/-! ## The proposed repair is sufficient (`loadFixed`, notes/C19.md) -/
+
+theorem fixed_noPanic (p : Bytes) (f : File C) : (loadFixed C p f).isPanic = false := by
+  have hd : (decryptFixed C p f).isPanic = false := by
+    unfold decryptFixed
+    split
+    · rfl
+    · next h1 =>
+      split
+      · rfl
+      · next h2 =>
+        refine decrypt_not_panic p f (Decidable.not_not.mp h2) ?_
+        by_cases hp : p = []
+        · right; intro hs; exact h1 ⟨by rw [hs]; rfl, by rw [hp]; rfl⟩
+        · exact Or.inl hp
+  unfold loadFixed
+  cases hdf : decryptFixed C p f with
+  | panic q => rw [hdf] at hd; cases hd
+  | err e => rfl
+  | ok m =>
+    simp only
+    cases C.parsePriv m with
+    | none => rfl
+    | some sk =>
+      cases C.parsePub (fld f.pub) with
+      | none => rfl
+      | some pk => simp only; split <;> rfl
+
+theorem pubBytes_inj (L : Laws C) {a b : C.PK} (h : C.pubBytes a = C.pubBytes b) : a = b := by
+  have := L.parsePub_pubBytes a
+  rw [h, L.parsePub_pubBytes] at this
+  exact (Option.some.inj this).symm
+
+/-- with the repair, **every** file and passphrase: whatever loads is a working signer -/
+theorem fixed_usable (L : Laws C) (p : Bytes) (f : File C) (s : Signer C) (h : loadFixed C p f = .ok s) :
+    s.Consistent := by
+  unfold loadFixed at h
+  split at h
+  · cases h
+  · cases h
+  · split at h
+    · cases h
+    · next sk _ =>
+      split at h
+      · cases h
+      · next pk _ =>
+        split at h
+        · next he =>
+          cases h
+          exact (consistent_iff L _).mpr (pubBytes_inj L he).symm
+        · cases h
+
+/-- the repair rejects nothing that was right: a load that gave a working signer still gives it -/
+theorem fixed_conservative (L : Laws C) (p : Bytes) (f : File C) (s : Signer C) (h : load C p f = .ok s)
+    (hc : s.Consistent) : loadFixed C p f = .ok s := by
+  have hnp : (load C p f).isPanic = false := by rw [h]; rfl
+  have hsharp : ¬ ((p = [] ∧ fld f.salt = []) ∨ (fld f.nonce).length ≠ nonceSize) := fun hh => by
+    have := (C19_noPanic_partial_sharp (C := C) p f).mpr hh
+    rw [hnp] at this; cases this
+  obtain ⟨m, hd, hsk, hpk⟩ := load_ok_inv h
+  have h1 : ¬ ((fld f.salt).length = 0 ∧ p.length = 0) := fun hh =>
+    hsharp (Or.inl ⟨List.length_eq_zero_iff.mp hh.2, List.length_eq_zero_iff.mp hh.1⟩)
+  have h2 : ¬ (fld f.nonce).length ≠ nonceSize := fun hh => hsharp (Or.inr hh)
+  have hpkeq : s.pk = C.pubOf s.sk := (consistent_iff L s).mp hc
+  unfold loadFixed decryptFixed
+  rw [if_neg h1, if_neg h2, hd]
+  simp only [hsk, hpk]
+  rw [if_pos (by rw [hpkeq])]
+
 /-! ## Address: the three derivations in the tree and the model agree (facts regenerated from /repo on every run) -/
 
 /-- the model's address is `types.KeyAddress`: SHA-256 of the raw public key -/
